@@ -454,7 +454,9 @@ class Model:
                 for f, v in zip(fields, pos):
                     obj.attrs[f] = v
                 obj.attrs.update(kw)
-                self.log("construct", node, cls=callee.qualname, attrs={k: to_term(v) for k, v in obj.attrs.items()})
+                if nt:
+                    obj.attrs["__fields__"] = list(fields)          # a NamedTuple instance unpacks / indexes in field order
+                self.log("construct", node, cls=callee.qualname, attrs={k: to_term(v) for k, v in obj.attrs.items() if k != "__fields__"})
                 return obj
             if init is not None and init.mod.name.startswith("hta"):
                 init.bound_self = obj
